@@ -279,10 +279,13 @@ func dumpFullModel(o *Obl) {
 // function's verification context unsatisfiable (debugging aid for vacuity).
 func bisectAssumptions(o *Obl) {
 	c := o.ctx
+	keepCond := false
 	check := func(n int) string {
 		tmp := *o
 		tmp.NAsserts = n
-		tmp.Cond = sTrue
+		if !keepCond {
+			tmp.Cond = sTrue
+		}
 		tmp.Goal = sTrue
 		tmp.ExpectSat = true
 		tmp.Extra = nil
@@ -292,7 +295,15 @@ func bisectAssumptions(o *Obl) {
 		return strings.TrimSpace(strings.SplitN(string(out), "\n", 2)[0])
 	}
 	n := len(c.asserts)
-	fmt.Printf("   all %d assertions: %s\n", n, check(n))
+	if o.NAsserts > 0 && o.NAsserts < n {
+		n = o.NAsserts
+	}
+	r0 := check(n)
+	fmt.Printf("   all %d assertions: %s\n", n, r0)
+	if r0 != "unsat" {
+		keepCond = true
+		fmt.Printf("   with the obligation's path condition %s: %s\n", o.Cond, check(n))
+	}
 	lo, hi := 0, n
 	for lo < hi {
 		mid := (lo + hi) / 2
